@@ -45,11 +45,12 @@ var orderMethods = []orderMethod{
 }
 
 // orderDriver builds the participants and performs the call in-script.
-const orderDriver = `(function(m, isStatic, roles, argc, bt, b0, b1, emptyThis){
+const orderDriver = `(function(m, isStatic, roles, argc, bt, b0, b1, emptyThis, zero){
   var n = 0, log = [];
   function mk(name, beh, role, isThis) {
     function val(c, which) {
       if (isThis) return emptyThis ? "" : "0123456789" + c;
+      if (zero && role === "N") c = 0;
       return which === "toString" ? String(c) : c;
     }
     function f(which) {
@@ -95,6 +96,7 @@ type orderSim struct {
 	n     int
 	log   []string
 	empty bool
+	zero  bool // number-converted arguments yield 0 instead of the counter value
 }
 
 // conv is ToString / ToNumber of a participant object: [[DefaultValue]] with hint
@@ -135,6 +137,9 @@ func (o *orderSim) conv(p orderPart) (str string, num float64, thrown string) {
 			return "0123456789" + strconv.Itoa(c), 0, ""
 		}
 		// toString returns the String c, valueOf the Number c: ToString/ToNumber of either is c
+		if o.zero && p.role == 'N' {
+			c = 0
+		}
 		return strconv.Itoa(c), float64(c), ""
 	}
 	return "", 0, "TypeError"
@@ -164,8 +169,18 @@ func jsNum(f float64) string {
 }
 
 // orderExpect replays the case by the specification.
-func orderExpect(m orderMethod, argc int, beh [3]int, empty bool) string {
-	sim := &orderSim{empty: empty}
+func orderExpect(m orderMethod, argc int, beh [3]int, empty, zero bool) string {
+	return orderReplay(m, argc, beh, empty, zero, "")
+}
+
+// orderReplay replays the case by the specification (variant "") or by one of
+// the alternative models that pin known order findings:
+//
+//	"position-first"      charAt/charCodeAt convert the position before ToString(this)
+//	"empty-skips-position" lastIndexOf on an empty receiver never converts the position
+//	"zero-limit-skips-separator" split with limit 0 returns before ToString(separator)
+func orderReplay(m orderMethod, argc int, beh [3]int, empty, zero bool, variant string) string {
+	sim := &orderSim{empty: empty, zero: zero}
 	this := orderPart{"this", 'S', beh[0], true}
 	args := []orderPart{}
 	for i := 0; i < argc; i++ {
@@ -176,9 +191,17 @@ func orderExpect(m orderMethod, argc int, beh [3]int, empty bool) string {
 	if !m.static {
 		seq = append(seq, this)
 	}
-	if m.name == "split" && argc == 2 {
+	switch {
+	case variant == "position-first" && argc == 1:
+		seq = []orderPart{args[0], this}
+	case variant == "empty-skips-position" && argc == 2:
+		seq = append(seq, args[0])
+		argc = 1 // the position is never looked at
+	case variant == "zero-limit-skips-separator" && argc == 2:
+		seq = append(seq, args[1])
+	case m.name == "split" && argc == 2:
 		seq = append(seq, args[1], args[0]) // 15.5.4.14 step 5 (limit) precedes step 8 (separator)
-	} else {
+	default:
 		seq = append(seq, args...)
 	}
 	strs := map[string]string{}
@@ -191,6 +214,9 @@ func orderExpect(m orderMethod, argc int, beh [3]int, empty bool) string {
 			break
 		}
 		strs[p.name], nums[p.name] = s, n
+	}
+	if outcome == "" && variant == "zero-limit-skips-separator" {
+		outcome = "ok:[]"
 	}
 	if outcome == "" {
 		S := asciiUnits(strs["this"])
@@ -281,38 +307,49 @@ func runOrder(r *engine.Run) {
 				}
 				for b0 := 0; b0 < n0; b0++ {
 					for b1 := 0; b1 < n1; b1++ {
-						key := fmt.Sprintf("order/%s/%d/%d%d%d", m.name, argc, bt, b0, b1)
-						if empty {
-							key += "/empty"
+						for _, zero := range []bool{false, true} {
+							if zero && !strings.Contains(m.roles[:argc], "N") {
+								continue
+							}
+							key := fmt.Sprintf("order/%s/%d/%d%d%d", m.name, argc, bt, b0, b1)
+							if empty {
+								key += "/empty"
+							}
+							if zero {
+								key += "/zero"
+							}
+							if !r.MineKey(key) {
+								continue
+							}
+							r.Begin(key)
+							obs := e.call(orderDriver, mustVal(m.name), mustVal(m.static), mustVal(m.roles), mustVal(argc), mustVal(bt), mustVal(b0), mustVal(b1), mustVal(empty), mustVal(zero))
+							r.End()
+							obs = strings.TrimPrefix(obs, "s:")
+							if m.name == "localeCompare" && strings.HasPrefix(obs, "ok:number:") && !strings.HasPrefix(obs, "ok:number:0 ") && !strings.HasPrefix(obs, "ok:number:NaN") {
+								obs = "ok:number:nonzero" + obs[strings.Index(obs, " log="):]
+							}
+							exp := orderExpect(m, argc, [3]int{bt, b0, b1}, empty, zero)
+							parts := []string{"this:" + behNames[bt]}
+							if empty {
+								parts[0] += "(empty string)"
+							}
+							if m.static {
+								parts = nil
+							}
+							if argc > 0 {
+								parts = append(parts, "a0:"+behNames[b0])
+							}
+							if argc > 1 {
+								parts = append(parts, "a1:"+behNames[b1])
+							}
+							input := fmt.Sprintf("%s with %d logging object argument(s) [%s]", m.name, argc, strings.Join(parts, " "))
+							aux := map[string]string{"m": "order", "method": m.name, "argc": strconv.Itoa(argc),
+								"beh": fmt.Sprintf("%d%d%d", bt, b0, b1), "empty": strconv.FormatBool(empty), "zero": strconv.FormatBool(zero)}
+							if zero {
+								input += " (number-converted arguments yield 0)"
+							}
+							filed(r, key, input, exp, obs, aux)
 						}
-						if !r.MineKey(key) {
-							continue
-						}
-						r.Begin(key)
-						obs := e.call(orderDriver, mustVal(m.name), mustVal(m.static), mustVal(m.roles), mustVal(argc), mustVal(bt), mustVal(b0), mustVal(b1), mustVal(empty))
-						r.End()
-						obs = strings.TrimPrefix(obs, "s:")
-						if m.name == "localeCompare" && strings.HasPrefix(obs, "ok:number:") && !strings.HasPrefix(obs, "ok:number:0 ") && !strings.HasPrefix(obs, "ok:number:NaN") {
-							obs = "ok:number:nonzero" + obs[strings.Index(obs, " log="):]
-						}
-						exp := orderExpect(m, argc, [3]int{bt, b0, b1}, empty)
-						parts := []string{"this:" + behNames[bt]}
-						if empty {
-							parts[0] += "(empty string)"
-						}
-						if m.static {
-							parts = nil
-						}
-						if argc > 0 {
-							parts = append(parts, "a0:"+behNames[b0])
-						}
-						if argc > 1 {
-							parts = append(parts, "a1:"+behNames[b1])
-						}
-						input := fmt.Sprintf("%s with %d logging object argument(s) [%s]", m.name, argc, strings.Join(parts, " "))
-						aux := map[string]string{"m": "order", "method": m.name, "argc": strconv.Itoa(argc),
-							"beh": fmt.Sprintf("%d%d%d", bt, b0, b1), "empty": strconv.FormatBool(empty)}
-						filed(r, key, input, exp, obs, aux)
 					}
 				}
 			}
@@ -320,4 +357,55 @@ func runOrder(r *engine.Run) {
 	}
 	r.Bound("methods", fmt.Sprint(len(orderMethods)))
 	r.Bound("behaviours", "5 per participant (receiver and up to two arguments) + empty receiver, every argument count")
+}
+
+func orderMethodByName(n string) (orderMethod, bool) {
+	for _, m := range orderMethods {
+		if m.name == n {
+			return m, true
+		}
+	}
+	return orderMethod{}, false
+}
+
+// orderSignature accepts a mismatch of the order family iff it lies in the
+// variant's input class and the observed outcome AND log equal the replay under
+// that variant.
+func orderSignature(variant string, class func(method string, argc int, empty, zero bool) bool) engine.Signature {
+	return func(mm *engine.Mismatch) bool {
+		a := mm.Aux
+		if a == nil || a["m"] != "order" || len(a["beh"]) != 3 {
+			return false
+		}
+		m, ok := orderMethodByName(a["method"])
+		argc, err := strconv.Atoi(a["argc"])
+		if !ok || err != nil || argc < 0 || argc > len(m.roles) {
+			return false
+		}
+		empty, zero := a["empty"] == "true", a["zero"] == "true"
+		if !class(m.name, argc, empty, zero) {
+			return false
+		}
+		var beh [3]int
+		for i := 0; i < 3; i++ {
+			beh[i] = int(a["beh"][i] - '0')
+			if beh[i] < 0 || beh[i] >= nBeh {
+				return false
+			}
+		}
+		return orderReplay(m, argc, beh, empty, zero, variant) == mm.Observed
+	}
+}
+
+func init() {
+	engine.RegisterSignature("c09-order-charat-position-first", orderSignature("position-first",
+		func(method string, argc int, empty, zero bool) bool {
+			return (method == "charAt" || method == "charCodeAt") && argc == 1
+		}))
+	engine.RegisterSignature("c09-order-lastindexof-empty-receiver", orderSignature("empty-skips-position",
+		func(method string, argc int, empty, zero bool) bool {
+			return method == "lastIndexOf" && argc == 2 && empty
+		}))
+	engine.RegisterSignature("c09-order-split-zero-limit", orderSignature("zero-limit-skips-separator",
+		func(method string, argc int, empty, zero bool) bool { return method == "split" && argc == 2 && zero }))
 }
